@@ -157,7 +157,7 @@ impl Property for C17 {
     }
 
     fn strategy(_tier: Tier) -> BoxedStrategy<Case> {
-        let bad = prop::sample::select(vec!["abc", "0", "zz", "OP_FOO", "0x10", "OP_", "12345", "op_dup", "1g", "OP_DUP,", "-1"]);
+        let bad = prop::sample::select(vec!["abc", "0", "zz", "OP_FOO", "0x10", "OP_", "12345", "op_dup", "1g", "OP_DUP,", "-1", "+5", "+0", " 7", "1_", "0b", "1e1", "٣", "OP_1 ", "１６"]);
         prop_oneof![
             20 => (asm_elements(3), 0u8..9, prop::bool::weighted(0.05)).prop_map(|(els, ws, allow_collision)| Case::RoundTrip { els, ws, allow_collision }),
             2 => (asm_elements(1), bad, asm_elements(1)).prop_map(|(before, token, after)| Case::Invalid { before, token: token.to_string(), after }),
@@ -267,7 +267,9 @@ impl Property for C17 {
                     parts.push(tb);
                 }
                 // "0" and "12345"-like tokens: only tokens that are neither names, aliases nor even-length hex are invalid
-                let invalid = !(token == "0" || (token.len() % 2 == 0 && token.chars().all(|c| c.is_ascii_hexdigit())));
+                let t = token.trim();
+                let is_alias = (0u8..=16).any(|n| n.to_string() == t);
+                let invalid = !(is_alias || (t.len() % 2 == 0 && t.chars().all(|c| c.is_ascii_hexdigit())) || crate::refimpl::script_tok::opcode_name_to_byte(t).is_some());
                 parts.push(token.clone());
                 let ta = render_plain(&gs::to_tokens(&a));
                 if !ta.is_empty() {
